@@ -20,6 +20,8 @@ def _mk(cx, mido, shape):
                 m = mido.Message('note_on', note=tag, channel=ti, time=d)
             elif c == 't':
                 m = mido.MetaMessage('text', text='tag%d' % tag, time=d)
+            elif c == 'T':
+                m = mido.MetaMessage('set_tempo', tempo=1000 + tag, time=d)
             else:
                 m = mido.MetaMessage('end_of_track', time=d)
             tr.append(m)
@@ -34,6 +36,8 @@ def _tag_of(m):
         return m.note
     if m.type == 'text':
         return int(m.text[3:])
+    if m.type == 'set_tempo':
+        return m.tempo - 1000
     return None
 
 
@@ -88,7 +92,7 @@ def merge(cx, shape, skip_checks=False, via_file=False):
 
 
 BOUNDS = {
-    'quick': 'every list of 0..3 tracks over the alphabet {note_on, text meta, end_of_track} with at most 3 messages per track '
+    'quick': 'every list of 0..3 tracks over the alphabet {note_on, text meta, set_tempo, end_of_track} with at most 3 messages per track '
              'and at most 5 in total (end_of_track missing, last, repeated, in the middle), every delta symbolic in [0, 2^30] so '
              'that all orderings and all tie patterns between tracks are chosen by the solver; skip_checks on and off; through '
              'MidiFile.merged_track for 2-track shapes',
@@ -100,7 +104,7 @@ ASSUMPTIONS = ['list.sort is a correct stable sort (its comparisons are driven b
 
 def _shapes(max_total, max_per, max_tracks):
     import itertools
-    alpha = 'nte'
+    alpha = 'ntTe'
     per = ['']
     for n in range(1, max_per + 1):
         per += [''.join(p) for p in itertools.product(alpha, repeat=n)]
@@ -130,11 +134,15 @@ def JOBS(tier):
             continue
         seen.add(key)
         n_t = sum(s.count('t') for s in sh)
-        if n_t > 1:
+        n_T = sum(s.count('T') for s in sh)
+        tot = sum(len(s) for s in sh)
+        if n_t > 1 or n_T > 1:
             continue
+        if tier == 'quick' and n_T and tot > 3:
+            continue            # set_tempo shapes: up to 3 messages in quick, all sizes in thorough
         total = sum(len(s) for s in sh)
         jobs.append((merge, {'shape': sh}, {'cost': 3 ** total, 'width': 0}))
-    for sh in (['n', 'n'], ['ne', 'tn'], ['nn', 'e'], ['nen', 'ne'], [], ['', '']):
+    for sh in (['n', 'n'], ['ne', 'tn'], ['nn', 'e'], ['nen', 'ne'], [], ['', ''], ['n', 'T'], ['nT', 'tn']):
         jobs.append((merge, {'shape': sh, 'skip_checks': True}, {'width': 0}))
         jobs.append((merge, {'shape': sh, 'via_file': True}, {'width': 0}))
     return jobs
